@@ -5,8 +5,8 @@ import (
 	"go/token"
 	"go/types"
 
-	cfg "verifcheck/cfgx"
 	"golang.org/x/tools/go/types/typeutil"
+	cfg "verifcheck/cfgx"
 )
 
 // Graph is a go/cfg control-flow graph of one function body with the select
@@ -193,6 +193,19 @@ func (g *Graph) Locate(n ast.Node) Loc {
 				if bestSpan < 0 || span < bestSpan {
 					best, bestSpan = Loc{b, i}, span
 				}
+			}
+		}
+	}
+	if best.Valid() {
+		return best
+	}
+	// n is a compound statement (or a declaration) that is not itself a CFG node:
+	// return the first CFG node inside it (lowest position = first evaluated).
+	var first token.Pos = -1
+	for _, b := range g.Blocks {
+		for i, cn := range g.nodes[b] {
+			if containsNode(n, cn) && (first < 0 || cn.Pos() < first) {
+				best, first = Loc{b, i}, cn.Pos()
 			}
 		}
 	}
@@ -396,7 +409,7 @@ func (g *Graph) Walk(from Loc, visit func(n ast.Node, l Loc) bool) []Exit {
 				}
 			}
 		}
-		if live == 0 && len(b.Succs) == 0 {
+		if live == 0 && len(b.Succs) == 0 && b.Kind != cfg.KindSelectAfterCase {
 			// end of function without return statement (or no-return call)
 			if len(ns) > 0 {
 				if isNoReturnNode(g, ns[len(ns)-1]) {
@@ -475,6 +488,12 @@ func (g *Graph) Returns() []Exit {
 // location, the set of counts possible just BEFORE the node, and per exit the set at
 // the exit.
 func (g *Graph) CountPaths(start Loc, event func(n ast.Node) int, stopAt func(n ast.Node, l Loc) bool) (before map[Loc]uint8, exits map[Loc]uint8) {
+	return g.CountPathsIn(start, event, stopAt, nil)
+}
+
+// CountPathsIn is CountPaths restricted to a region of blocks: leaving the region is an
+// exit (recorded at Loc{block,-1} of the first block outside).
+func (g *Graph) CountPathsIn(start Loc, event func(n ast.Node) int, stopAt func(n ast.Node, l Loc) bool, inRegion func(b *cfg.Block) bool) (before map[Loc]uint8, exits map[Loc]uint8) {
 	before = map[Loc]uint8{}
 	exits = map[Loc]uint8{}
 	in := map[*cfg.Block]uint8{}
@@ -530,6 +549,10 @@ func (g *Graph) CountPaths(start Loc, event func(n ast.Node) int, stopAt func(n 
 				continue
 			}
 			live++
+			if inRegion != nil && !inRegion(s) {
+				exits[Loc{s, -1}] |= m
+				continue
+			}
 			if in[s]|m != in[s] {
 				in[s] |= m
 				work = append(work, item{s, 0, in[s]})
@@ -538,6 +561,9 @@ func (g *Graph) CountPaths(start Loc, event func(n ast.Node) int, stopAt func(n 
 		if live == 0 {
 			if len(ns) > 0 && isNoReturnNode(g, ns[len(ns)-1]) {
 				continue
+			}
+			if it.b.Kind == cfg.KindSelectAfterCase {
+				continue // "no arm ready" of a select without default: blocks, never proceeds
 			}
 			exits[Loc{it.b, len(ns)}] |= m
 		}
@@ -568,3 +594,74 @@ func (g *Graph) CondBlocks() []CondBlock {
 
 // CondLoc is the location of a block's condition (its last node).
 func (g *Graph) CondLoc(b *cfg.Block) Loc { return Loc{b, len(g.nodes[b]) - 1} }
+
+// BranchTarget returns the statement a break/continue (without label) refers to: the
+// innermost enclosing for/range (continue) or for/range/switch/select (break) inside
+// root. Labeled branches return the labeled statement's inner statement.
+func BranchTarget(root ast.Node, br *ast.BranchStmt) ast.Stmt {
+	var stack []ast.Node
+	var target ast.Stmt
+	ast.Inspect(root, func(n ast.Node) bool {
+		if target != nil {
+			return false
+		}
+		if n == nil {
+			stack = stack[:len(stack)-1]
+			return false
+		}
+		if n == ast.Node(br) {
+			for i := len(stack) - 1; i >= 0; i-- {
+				if br.Label != nil {
+					if ls, ok := stack[i].(*ast.LabeledStmt); ok && ls.Label.Name == br.Label.Name {
+						target = ls.Stmt
+						return false
+					}
+					continue
+				}
+				switch s := stack[i].(type) {
+				case *ast.ForStmt:
+					target = s
+				case *ast.RangeStmt:
+					target = s
+				case *ast.SwitchStmt:
+					if br.Tok == token.BREAK {
+						target = s
+					}
+				case *ast.TypeSwitchStmt:
+					if br.Tok == token.BREAK {
+						target = s
+					}
+				case *ast.SelectStmt:
+					if br.Tok == token.BREAK {
+						target = s
+					}
+				case *ast.FuncLit:
+					return false
+				}
+				if target != nil {
+					return false
+				}
+			}
+			return false
+		}
+		stack = append(stack, n)
+		return true
+	})
+	return target
+}
+
+// ChanField resolves the struct field a channel expression denotes (send target or
+// receive operand), nil if it is not a field selection.
+func ChanField(info *types.Info, e ast.Expr) *types.Var {
+	if u, ok := ast.Unparen(e).(*ast.UnaryExpr); ok && u.Op == token.ARROW {
+		e = u.X
+	}
+	return FieldVar(info, e)
+}
+
+// InStmt returns a region predicate: blocks created by statements inside (or equal to) st.
+func InStmt(st ast.Node) func(b *cfg.Block) bool {
+	return func(b *cfg.Block) bool {
+		return b.Stmt != nil && st.Pos() <= b.Stmt.Pos() && b.Stmt.End() <= st.End()
+	}
+}
